@@ -3,6 +3,7 @@
 package harness
 
 import (
+	"net"
 	"bufio"
 	"bytes"
 	"context"
@@ -140,6 +141,11 @@ func faultHook(plan []FaultSpec, inner func() driver.Conn) func(op, key string, 
 			return &faultAction{Data: []byte("\x00\xffnot a stored value\n\n{")}
 		case kind == "null":
 			return &faultAction{Data: []byte("[null]")}
+		case strings.HasPrefix(kind, "json"):
+			// valid JSON of the wrong shape where an index (or an entry) is expected
+			shapes := []string{`[null,7]`, `[{"id":7},null]`, `{}`, `"x"`, `[1]`, `[[]]`, `{"id":"a"}`, `[{"id":"a","vary":1}]`, `null`, `[{}]`, `[null,{"id":"k#0"}]`, `7`}
+			n, _ := strconv.Atoi(kind[4:])
+			return &faultAction{Data: []byte(shapes[n%len(shapes)])}
 		case strings.HasPrefix(kind, "dmg"):
 			// one byte of the stored value damaged: replaced or deleted, mostly a structural byte (TAB, LF, CR, ':', ' ')
 			// of the first two lines
@@ -582,6 +588,18 @@ func (o *origin) RoundTrip(req *http.Request) (*http.Response, error) {
 		return nil, ctxErr
 	}
 	if exhausted || rep.Err {
+		// the ways an upstream RoundTripper fails: a plain error, one that wraps a context error although the caller's
+		// context is alive (a per-attempt timeout, a closed pool), a network timeout, an unexpected end of the stream
+		switch idx % 5 {
+		case 1:
+			return nil, fmt.Errorf("origin: attempt timed out: %w", context.DeadlineExceeded)
+		case 2:
+			return nil, fmt.Errorf("origin: connection pool closed: %w", context.Canceled)
+		case 3:
+			return nil, &net.OpError{Op: "read", Net: "tcp", Err: os.ErrDeadlineExceeded}
+		case 4:
+			return nil, io.ErrUnexpectedEOF
+		}
 		return nil, errors.New("origin: scripted transport error")
 	}
 	h := http.Header{}
